@@ -25,7 +25,7 @@ Example C16_suffix_rules : suffix_rules = [25; 26].
 Proof. vm_compute. reflexivity. Qed.
 Example C16_prefix_alt_rules : prefix_alt_rules = [9; 10].
 Proof. vm_compute. reflexivity. Qed.
-Example C16_number_of_stars : length (flat_map (fun ra => subreps (fst ra)) sql_regex) = 64.
+Example C16_number_of_stars : length (flat_map (fun ra => subreps (fst ra)) sql_regex) = 65.
 Proof. vm_compute. reflexivity. Qed.
 
 (* (a) no unbounded repeat of any rule matches the same substring in two ways *)
@@ -66,7 +66,7 @@ Proof.
 Qed.
 
 (* (d) the work of the whole scan loop: degree 5 *)
-Lemma C16_FK : fm_coef sql_regex = 1768.
+Lemma C16_FK : fm_coef sql_regex = 1769.
 Proof. vm_compute. reflexivity. Qed.
 
 Theorem C16_lex_work t :
